@@ -20,6 +20,9 @@ def run_one(script: Dict[str, Any], worker: str, seed: int = 0) -> List[Dict[str
                 out.append({"e": "variant", "n": i})
             out.extend(run_one(sub, worker, seed))
         return out
+    if script.get("pair_workers") and worker == "pair":
+        sub = {k: v for k, v in script.items() if k != "pair_workers"}
+        return run_one(sub, "asyncio", seed) + [{"e": "variant", "n": 1}] + run_one(sub, "trio", seed)
     from .session import Session
 
     sess = Session(json.loads(json.dumps(script)), worker)
